@@ -34,6 +34,7 @@ type c05Vec struct {
 	Rec              string   `json:"rec"`
 	Sender           bool     `json:"sender"`
 	Encoded          bool     `json:"encoded"`
+	Configs          []string `json:"configs"`
 	Slot             string   `json:"slot"`
 	Kind             string   `json:"kind"`
 	Side             string   `json:"side"`
@@ -114,7 +115,7 @@ var c05URISlots = map[string]bool{
 
 // c05ViaClient sends req with a HostClient over an in-memory connection whose far end records
 // every byte up to the end of the body (or the close) and answers 200.
-func c05ViaClient(req *Request) (wire []byte, rejected bool, why string) {
+func c05ViaClient(req *Request, nonorm bool) (wire []byte, rejected bool, why string) {
 	pc := fasthttputil.NewPipeConns()
 	got := make(chan []byte, 1)
 	go func() {
@@ -141,7 +142,7 @@ func c05ViaClient(req *Request) (wire []byte, rejected bool, why string) {
 		}
 		dialed = true
 		return pc.Conn1(), nil
-	}, ReadTimeout: 60 * time.Second, WriteTimeout: 60 * time.Second}
+	}, ReadTimeout: 60 * time.Second, WriteTimeout: 60 * time.Second, DisableHeaderNamesNormalizing: nonorm}
 	var resp Response
 	err := hc.Do(req, &resp)
 	pc.Conn1().Close()
@@ -160,12 +161,18 @@ func c05ViaClient(req *Request) (wire []byte, rejected bool, why string) {
 
 // c05Build builds the message with `in` in the slot and serialises it (requests optionally
 // through a client). rejected = the sender refused (setter error or Write error).
-func c05Build(v *c05Vec, in []byte, viaClient bool) (wire []byte, rejected bool, why string) {
+// route: "" = Request.Write / Response.Write, "client" = through a HostClient, "server" = as the
+// response of a live Server; nonorm = header-name normalizing disabled (on the header object, or
+// through the Server / Client option on the live routes).
+func c05Build(v *c05Vec, in []byte, route string, nonorm bool) (wire []byte, rejected bool, why string) {
 	var buf bytes.Buffer
 	bw := bufio.NewWriter(&buf)
 	s := string(in)
 	if v.Side == "req" {
 		var req Request
+		if nonorm {
+			req.Header.DisableNormalizing()
+		}
 		req.Header.SetMethod("POST")
 		if c05URISlots[v.Slot] {
 			req.SetRequestURI("http://example.com/p")
@@ -183,6 +190,16 @@ func c05Build(v *c05Vec, in []byte, viaClient bool) (wire []byte, rejected bool,
 			h.Add(s, "v")
 		case "ReqSetBytesKVName":
 			h.SetBytesKV(in, []byte("v"))
+		case "ReqSetBytesKName":
+			h.SetBytesK(in, "v")
+		case "ReqSetBytesVName":
+			h.SetBytesV(s, []byte("v"))
+		case "ReqAddBytesKVName":
+			h.AddBytesKV(in, []byte("v"))
+		case "ReqAddBytesKName":
+			h.AddBytesK(in, "v")
+		case "ReqAddBytesVName":
+			h.AddBytesV(s, []byte("v"))
 		case "ReqSetValue":
 			h.Set("X-V", s)
 		case "ReqAddValue":
@@ -249,55 +266,22 @@ func c05Build(v *c05Vec, in []byte, viaClient bool) (wire []byte, rejected bool,
 		} else {
 			req.SetBodyString("BODY")
 		}
-		if viaClient {
-			return c05ViaClient(&req)
+		if route == "client" {
+			return c05ViaClient(&req, nonorm)
 		}
 		if err := req.Write(bw); err != nil {
 			return nil, true, "Request.Write: " + err.Error()
 		}
 	} else {
-		var resp Response
-		resp.Header.Set("X-Before", "b")
-		h := &resp.Header
-		chunked := false
-		switch v.Slot {
-		case "RespSetName":
-			h.Set(s, "v")
-		case "RespAddName":
-			h.Add(s, "v")
-		case "RespSetBytesKVName":
-			h.SetBytesKV(in, []byte("v"))
-		case "RespSetValue":
-			h.Set("X-V", s)
-		case "RespAddValue":
-			h.Add("X-V", s)
-		case "RespSetCanonicalValue":
-			h.SetCanonical([]byte("X-V"), in)
-		case "RespSetContentType":
-			h.SetContentType(s)
-		case "RespSetServer":
-			h.SetServer(s)
-		case "RespSetServerViaSet":
-			h.Set("Server", s)
-		case "RespSetContentEncoding":
-			h.SetContentEncoding(s)
-		case "RespSetStatusMessage":
-			h.SetStatusMessage(in)
-		case "RespSetProtocol":
-			h.SetProtocol(in)
-		case "RespSetTrailer":
-			chunked = true
-			if err := h.SetTrailer(s); err != nil {
-				return nil, true, "SetTrailer: " + err.Error()
-			}
-		default:
-			return nil, true, "c05: unknown slot " + v.Slot
+		if route == "server" {
+			return c05ViaServer(v, in, nonorm)
 		}
-		resp.Header.Set("X-After", "a")
-		if chunked {
-			resp.SetBodyStream(strings.NewReader("BODY"), -1)
-		} else {
-			resp.SetBodyString("BODY")
+		var resp Response
+		if nonorm {
+			resp.Header.DisableNormalizing()
+		}
+		if rej, why := c05ApplyResp(&resp, v, in); rej {
+			return nil, true, why
 		}
 		if err := resp.Write(bw); err != nil {
 			return nil, true, "Response.Write: " + err.Error()
@@ -306,6 +290,99 @@ func c05Build(v *c05Vec, in []byte, viaClient bool) (wire []byte, rejected bool,
 	bw.Flush()
 	return buf.Bytes(), false, ""
 }
+
+// c05ApplyResp builds the response with `in` in the slot.
+func c05ApplyResp(resp *Response, v *c05Vec, in []byte) (rejected bool, why string) {
+	s := string(in)
+	resp.Header.Set("X-Before", "b")
+	h := &resp.Header
+	chunked := false
+	switch v.Slot {
+	case "RespSetName":
+		h.Set(s, "v")
+	case "RespAddName":
+		h.Add(s, "v")
+	case "RespSetBytesKVName":
+		h.SetBytesKV(in, []byte("v"))
+	case "RespSetBytesKName":
+		h.SetBytesK(in, "v")
+	case "RespSetBytesVName":
+		h.SetBytesV(s, []byte("v"))
+	case "RespAddBytesKVName":
+		h.AddBytesKV(in, []byte("v"))
+	case "RespAddBytesKName":
+		h.AddBytesK(in, "v")
+	case "RespAddBytesVName":
+		h.AddBytesV(s, []byte("v"))
+	case "RespSetValue":
+		h.Set("X-V", s)
+	case "RespAddValue":
+		h.Add("X-V", s)
+	case "RespSetCanonicalValue":
+		h.SetCanonical([]byte("X-V"), in)
+	case "RespSetContentType":
+		h.SetContentType(s)
+	case "RespSetServer":
+		h.SetServer(s)
+	case "RespSetServerViaSet":
+		h.Set("Server", s)
+	case "RespSetContentEncoding":
+		h.SetContentEncoding(s)
+	case "RespSetStatusMessage":
+		h.SetStatusMessage(in)
+	case "RespSetProtocol":
+		h.SetProtocol(in)
+	case "RespSetTrailer":
+		chunked = true
+		if err := h.SetTrailer(s); err != nil {
+			return true, "SetTrailer: " + err.Error()
+		}
+	default:
+		return true, "c05: unknown slot " + v.Slot
+	}
+	resp.Header.Set("X-After", "a")
+	if chunked {
+		resp.SetBodyStream(strings.NewReader("BODY"), -1)
+	} else {
+		resp.SetBodyString("BODY")
+	}
+	return false, ""
+}
+
+// c05ViaServer lets a live Server (ServeConn over a pipe) send the response built by the slot
+// and returns every byte it wrote before closing.
+func c05ViaServer(v *c05Vec, in []byte, nonorm bool) (wire []byte, rejected bool, why string) {
+	var rej bool
+	var rwhy string
+	srv := &Server{
+		DisableHeaderNamesNormalizing: nonorm,
+		Handler: func(ctx *RequestCtx) {
+			rej, rwhy = c05ApplyResp(&ctx.Response, v, in)
+			if rej {
+				ctx.Response.Reset()
+				ctx.SetStatusCode(599)
+			}
+		},
+		Logger: c05NullLogger{},
+	}
+	pc := fasthttputil.NewPipeConns()
+	cli := pc.Conn1()
+	done := make(chan struct{})
+	go func() { srv.ServeConn(pc.Conn2()); close(done) }()                      //nolint:errcheck
+	cli.SetDeadline(time.Now().Add(60 * time.Second))                           //nolint:errcheck
+	cli.Write([]byte("GET / HTTP/1.1\r\nHost: h\r\nConnection: close\r\n\r\n")) //nolint:errcheck
+	wire, _ = io.ReadAll(cli)
+	cli.Close()
+	<-done
+	if rej {
+		return nil, true, rwhy
+	}
+	return wire, false, ""
+}
+
+type c05NullLogger struct{}
+
+func (c05NullLogger) Printf(string, ...any) {}
 
 func c05Benign(kind string) []byte {
 	switch kind {
@@ -453,12 +530,15 @@ func TestVerifC05Serialize(t *testing.T) {
 	// vector is applied to every slot of its kind
 	var slots []c05Vec
 	var kindVecs []c05Vec
+	headerConfigs := []string{"normalizing"}
 	vfEachLine(t, "", func(line []byte) {
 		var v c05Vec
 		if err := json.Unmarshal(line, &v); err != nil {
 			t.Fatalf("bad vector %s: %v", line, err)
 		}
-		if v.Rec == "slot" {
+		if v.Rec == "configs" {
+			headerConfigs = v.Configs
+		} else if v.Rec == "slot" {
 			slots = append(slots, v)
 		} else {
 			kindVecs = append(kindVecs, v)
@@ -493,9 +573,10 @@ func TestVerifC05Serialize(t *testing.T) {
 		if evals%4000 == 1 {
 			vfSample(vfRec{"slot": v.Slot, "input": fmt.Sprintf("%q", in), "expect": fmt.Sprintf("%q", expect), "deliverable": v.Deliverable})
 		}
-		judge := func(bind string, viaClient bool) {
+		judge := func(bind, route string, nonorm bool) {
+			viaClient := route == "client"
 			if _, ok := baseLines[v.Slot+bind]; !ok {
-				bw, rej, why := c05Build(&v, c05Benign(v.Kind), viaClient)
+				bw, rej, why := c05Build(&v, c05Benign(v.Kind), route, nonorm)
 				if rej {
 					vfInfra("c05: baseline of " + v.Slot + bind + " rejected: " + why)
 					return
@@ -503,7 +584,7 @@ func TestVerifC05Serialize(t *testing.T) {
 				l, _ := c05HeadLines(bw)
 				baseLines[v.Slot+bind] = len(l)
 			}
-			wire, rejected, _ := c05Build(&v, in, viaClient)
+			wire, rejected, _ := c05Build(&v, in, route, nonorm)
 			if rejected {
 				stats["rejected_by_sender"+bind]++
 				return
@@ -658,10 +739,29 @@ func TestVerifC05Serialize(t *testing.T) {
 			}
 
 		}
-		judge("", false)
-		if v.Side == "req" && v.Kind != "trailer" && (c05URISlots[v.Slot] || v.Kind == "uri" || rng.Intn(clientEvery) == 0) {
-			evals++
-			judge("@client", true)
+		// every vector under "normalizing"; slots taking a header NAME always, the others in a
+		// seed-chosen share, also with normalizing disabled
+		for ci, cfg := range headerConfigs {
+			nonorm := cfg == "normalizing-disabled"
+			if ci > 0 && v.Kind != "name" && rng.Intn(clientEvery) != 0 {
+				continue
+			}
+			suffix := ""
+			if nonorm {
+				suffix = "+nonorm"
+			}
+			if ci > 0 {
+				evals++
+			}
+			judge(suffix, "", nonorm)
+			if v.Side == "req" && v.Kind != "trailer" && (c05URISlots[v.Slot] || v.Kind == "uri" || v.Kind == "name" || rng.Intn(clientEvery) == 0) {
+				evals++
+				judge("@client"+suffix, "client", nonorm)
+			}
+			if v.Side == "resp" && v.Kind != "trailer" && (v.Kind == "name" || rng.Intn(clientEvery) == 0) {
+				evals++
+				judge("@server"+suffix, "server", nonorm)
+			}
 		}
 	}
 	vfStat(evals, nontriv, vfRec{"c05_outcomes": stats})
